@@ -210,12 +210,13 @@ func runFile(c *Ctx) {
 		// the table the process has right now
 		initTxt := vTable(file.StaticRecords)
 		type inst struct {
-			v6      bool
-			path    string
-			content string
-			h4      handler.Handler4
-			h6      handler.Handler6
-			ok      bool
+			v6       bool
+			path     string
+			content  string
+			h4       handler.Handler4
+			h6       handler.Handler6
+			ok       bool
+			replaced bool // the lease file was replaced by rename: the plugin's watch is on the old file
 		}
 		var insts []*inst
 		rec := func() map[string]interface{} { return map[string]interface{}{"ops": opS, "observed": obs} }
@@ -278,17 +279,37 @@ func runFile(c *Ctx) {
 				// rewrite the file in place (one write, never shorter than before), wait for the watcher
 				bad := r.Pct(40)
 				nc := genLeaseFile(c, in.v6, macs, bad)
+				if !bad && r.Pct(15) {
+					nc = "# every lease retired\n" // a well-formed file without entries: the mapping becomes empty
+					c.Count("rewrite:to-empty-mapping")
+				}
 				for len(nc) < len(in.content) {
 					nc += "#pad\n"
 				}
 				collect(nc)
 				hook.take()
-				f, err := os.OpenFile(in.path, os.O_WRONLY, 0o644)
-				if err != nil {
-					continue
+				replaced := false
+				if !bad && !in.replaced && r.Pct(20) {
+					// update by atomic replacement: a temporary file renamed over the lease file (the watch is
+					// on the old file, so this is the last update this instance will notice)
+					tmp := in.path + ".new"
+					if os.WriteFile(tmp, []byte(nc), 0o644) == nil && os.Rename(tmp, in.path) == nil {
+						replaced = true
+						in.replaced = true
+						c.Count("rewrite:by-rename")
+					}
 				}
-				f.Write([]byte(nc))
-				f.Close()
+				if !replaced {
+					if in.replaced {
+						continue // the plugin no longer watches this path
+					}
+					f, err := os.OpenFile(in.path, os.O_WRONLY, 0o644)
+					if err != nil {
+						continue
+					}
+					f.Write([]byte(nc))
+					f.Close()
+				}
 				deadline := time.Now().Add(3 * time.Second)
 				seen := false
 				for time.Now().Before(deadline) && !seen {
